@@ -78,8 +78,8 @@ static std::string arith(const std::string& form, const std::string& offs, i128 
 
 using Fn = std::string (*)(const std::string&, const std::string&, i128);
 
-using PTypes = TL<char, short, int, long, long long, float, double, int*, int[3], vst12>;
-static const char* const PNames[] = { "char", "short", "int", "long", "llong", "float", "double", "ptr", "arr3", "st12" };
+using PTypes = TL<char, short, int, long, long long, float, double, int*, int[3], vst12, long[2][3]>;
+static const char* const PNames[] = { "char", "short", "int", "long", "llong", "float", "double", "ptr", "arr3", "st12", "arr2x3" };
 constexpr size_t NP = PTypes::n;
 constexpr size_t NT = IntTypes::n;
 
@@ -132,6 +132,7 @@ int main()
       add("ptr", sizeof(rlbox::tainted_volatile<int*, SbxA>), sizeof(int*));
       add("arr3", sizeof(rlbox::tainted_volatile<int[3], SbxA>), sizeof(int[3]));
       add("st12", sizeof(rlbox::tainted_volatile<vst12, SbxA>), sizeof(vst12));
+      add("arr2x3", sizeof(rlbox::tainted_volatile<long[2][3], SbxA>), sizeof(long[2][3]));
       return s;
     }
     return "badop";
